@@ -202,8 +202,12 @@ class C15(PropBase):
                 "pointer width, register names never collide with Address members (register files regenerated from context.rs); c15_address_denotes / c15_address_injective / c15_modules_denote - the digits denote "
                 "the FULL 64-bit value for every pointer width (32-bit: minimum padding, never truncation); c15_format_semantics / c15_format_pinned - address_str and the proc_limits values are exactly what the "
                 "format strings / serializer arms translate/c15_fmt.py reads off the source write; c15_proc_limits - limits sorted by name, a permutation of the table, numeric limits are JSON numbers for every u64; "
+                "c15_consistent / c15_offsets_checker - Gallina checkers of the self-consistency clauses on a JSON value alone (thread_count / frame_count / frame numbers / missing_symbols / the crashing_thread copy = "
+                "indexed thread + threads_index + registers in frame 0 only / num_records; module_offset = offset - base_addr of a module of that name, on the decoded numbers) hold of every well-formed state's report; "
+                "c15_basename (rfind + slice, separators read off utils.rs); c15_parse_ws_extends; "
                 "c15_counts / c15_frame_numbers / c15_offsets / c15_modules_mirror / c15_crashing_thread_copy; finite checks over regenerated tables: c15_enumerations, c15_source_keys_documented. The Gallina "
-                "checkers [conforms DOC_SCHEMA], [widths], [parse_ws] and the hypotheses [wf_state], [state_scalar], [regs_from_table] are also evaluated on every real output / state of the run. Generated states cover "
+                "checkers [conforms DOC_SCHEMA], [widths], [consistent], [offsets_ok], [parse_ws] and the hypotheses [wf_state], [state_scalar], [regs_from_table], [frames_in_modules] are also evaluated on every real "
+                "output / state of the run. Generated states cover "
                 "every optional member, malformed soft-errors streams and 32-bit platforms with addresses >= 2^32 (coverage counts in the evidence).",
         "note": "Trusted: Coq kernel + DecimalN; hand-written model (correspondence-checked byte for byte against print_json's compact and pretty output); serde_json writer assumed; schema translator + hand "
                 "transcription cross-checked. Not exhibited by the model: serde_json's byte-level writer, confidence, the text of pass-through strings.",
